@@ -934,13 +934,19 @@ class Parser:
                 return left - right
             elif exprnode.op == '*':
                 return left * right
-            elif exprnode.op == '/':
-                return self._c_div(left, right)
-            elif exprnode.op == '%':
+            elif exprnode.op in ('/', '%'):
+                if right == 0:
+                    raise FFIError(":%d: division by zero in constant "
+                                   "expression" % exprnode.coord.line)
+                if exprnode.op == '/':
+                    return self._c_div(left, right)
                 return left - self._c_div(left, right) * right
-            elif exprnode.op == '<<':
-                return left << right
-            elif exprnode.op == '>>':
+            elif exprnode.op in ('<<', '>>'):
+                if not (0 <= right < 1024):
+                    raise FFIError(":%d: unsupported shift count in constant "
+                                   "expression" % exprnode.coord.line)
+                if exprnode.op == '<<':
+                    return left << right
                 return left >> right
             elif exprnode.op == '&':
                 return left & right
